@@ -64,14 +64,6 @@ def property_name_is_escaped(name: str, route: int, required: bool) -> bool:
     return _name_route(name, route, True)
 
 
-def property_name_all_routes_thorough(name: str, route: int, required: bool) -> bool:
-    """
-    pre: len(name) <= 2 and 0 <= route < 10
-    post: _
-    """
-    return _name_route(name, route, required)
-
-
 def property_name_len3_thorough(name: str, route: int) -> bool:
     """
     pre: len(name) <= 3 and route in (0, 3, 4, 5)
